@@ -44,6 +44,8 @@ package upstream
 //@     && upstream == ret(sortByPathLongest)[rangeindex + 1] && !upstream.Static && ret1(url.Parse) == nil
 //@     && arg(url.Parse, 0) == upstream.URI && arg(registerHTTPUpstreamProxy, 2) == ret0(url.Parse)
 //@ ensures[sorted-input] arg(sortByPathLongest, 0) == upstreams.Upstreams
+//@ at call sortByPathLongest assert[raw-path-matching-is-switched-on-before-any-route-exists] upstreams.ProxyRawPath <==> called(UseEncodedPath)
+//@ at call UseEncodedPath assert[on-this-proxys-router] recv(UseEncodedPath) == m.serveMux
 //@ ensures[trailing-slash-handler-last] ret1 == nil ==> called(registerTrailingSlashHandler)
 //@ ensures[error-means-no-proxy] ret1 != nil ==> ret0 == nil
 //@ prop C17 C19
